@@ -43,8 +43,8 @@ def main():
             scratch = tempfile.mkdtemp(prefix='capy-mut.')
             try:
                 # copy just the source tree (no target/)
-                subprocess.run(['rsync', '-a', '--exclude', 'target', '--exclude', '.git',
-                                repo + '/crates', repo + '/core', scratch + '/'], check=True)
+                subprocess.run(['rsync', '-a', '--exclude', 'target', '--exclude', '.git', '--exclude', 'seed_out',
+                                repo.rstrip('/') + '/', scratch + '/'], check=True)
                 p = os.path.join(scratch, file)
                 s = open(p).read()
                 if s.count(old) != 1:
